@@ -302,7 +302,7 @@ def run(tier: str, only=None) -> core.Result:
         for pref in PREFERRED:
             for ai in range(len(ANSWERS)):
                 # answer times and distractor: full product for the short lists, reduced for length 3
-                times = TIMES if len(sup) <= 2 else ["now"]
+                times = TIMES if (len(sup) <= 2 or (tier == "thorough" and len(sup) == 3 and pref in (None, sup[-1], "not-in-U"))) else ["now"]
                 for when in (times if ANSWERS[ai]["kind"] != "silence" else ["now"]):
                     for d in (False, True):
                         for tr in (False, True):
